@@ -215,6 +215,59 @@ static void run_vq(void) {
     vf_sample("Query value sweep: {0,1,3,capacity,capacity+2} outstanding observations x {direct, bridged} x sequence number 1..65535");
 }
 
+/* ------------------------------------------------------------------ C07 address-neighbour stage (mode c07a)
+ * Observations are keyed by 48-bit addresses.  Base observation: Probe(real source S, Ethernet source S, to us).
+ * kind 0: second frame = the same with ONE bit of the real destination flipped (48): it is for another station -> 1 entry
+ * kind 1: one bit of the real source flipped (48): a distinct observation -> 2 entries, each as received
+ * kind 2: one bit of the Ethernet source flipped (48): a distinct observation -> 2 entries
+ * kind 3: identical (1): a duplicate -> 1 entry.          x 2 base source addresses x 2 own addresses.
+ * pseudo path: [address set (0..3), kind, bit] */
+static int va_stage[3], va_n; static uint64_t va_cases;
+static void va_case(int aset, int kind, int bit) {
+    static const uint8_t own1[6] = {0x00, 0x50, 0xf2, 0x12, 0x34, 0x56}, src1[6] = {0xfe, 0xff, 0x80, 0xff, 0xff, 0xfe}, src0[6] = {0x00, 0x50, 0x56, 0x00, 0x00, 0x10};
+    uint8_t keep[6]; memcpy(keep, W.iface[0].mac, 6);
+    if (aset & 1) memcpy(W.iface[0].mac, own1, 6);
+    const uint8_t *S = (aset & 2) ? src1 : src0; const uint8_t *own = W.iface[0].mac;
+    vf_world_reset(); root_setup(); vf_trace_clear();
+    pev d = ev_discover(0, ST_M1, ST_M1, 0x1234, 1); drv_linux(&d, 0);
+    uint8_t f[64], rs[6], es[6], rd[6];
+    fb_base(f, own, S, 0, 0x04, own, S, 0); memset(W.iface[0].recv, 0, W.iface[0].recv_prev_len); drv_linux_deliver(0, f, 32);
+    memcpy(rs, S, 6); memcpy(es, S, 6); memcpy(rd, own, 6);
+    if (kind == 0) rd[bit / 8] ^= (uint8_t)(1u << (bit % 8));
+    if (kind == 1) rs[bit / 8] ^= (uint8_t)(1u << (bit % 8));
+    if (kind == 2) es[bit / 8] ^= (uint8_t)(1u << (bit % 8));
+    fb_base(f, own, es, 0, 0x04, rd, rs, 0); memset(W.iface[0].recv, 0, W.iface[0].recv_prev_len); drv_linux_deliver(0, f, 32);
+    pev q = ev_query(0, ST_M1, ST_M1, 0x0101); vf_trace_clear(); drv_linux(&q, 0);
+    va_cases++;
+    static const char *KN[4] = {"real destination", "real source", "Ethernet source", "nothing (duplicate)"};
+    int want = (kind == 1 || kind == 2) ? 2 : 1;
+    const vf_trec *t = tr_send(0);
+    if (tr_sends() != 1 || t->len < 34 || tr_bytes(t)[17] != 0x07) { vf_violation("query:not-a-queryresp", "address stage: the Query was not answered with one QueryResp"); memcpy(W.iface[0].mac, keep, 6); return; }
+    unsigned cnt = (unsigned)(((tr_bytes(t)[32] << 8) | tr_bytes(t)[33]) & 0x3FFF);
+    if (A.verbose) printf("    own %02x:..:%02x, base source %02x:..:%02x, second frame differs in bit %d of the %s -> %u descriptors\n", own[0], own[5], S[0], S[5], bit, KN[kind], cnt);
+    if (cnt != (unsigned)want || t->len != 34 + 20 * cnt) {
+        char sig[96]; snprintf(sig, sizeof sig, "query:address-neighbour:%s", kind == 0 ? "frame-for-another-station-recorded-or-ours-lost" : kind == 3 ? "duplicate" : cnt < (unsigned)want ? "distinct-observations-merged" : "extra");
+        vf_violation(sig, "two Probes, the second differing from the first in bit %d of the %s: QueryResp lists %u observations, expected %d", bit, KN[kind], cnt, want);
+    } else {
+        /* each entry as received */
+        int ok0 = 0, ok1 = want == 1;
+        for (unsigned i = 0; i < cnt; i++) { const uint8_t *e = tr_bytes(t) + 34 + 20 * i; if (!memcmp(e + 2, S, 6) && !memcmp(e + 8, S, 6) && !memcmp(e + 14, own, 6)) ok0 = 1; if (want == 2 && !memcmp(e + 2, rs, 6) && !memcmp(e + 8, es, 6) && !memcmp(e + 14, own, 6)) ok1 = 1; }
+        if (!ok0 || !ok1) vf_violation("query:invented-or-distorted-observation", "address stage (bit %d of the %s): the QueryResp entries are not the frames as received", bit, KN[kind]);
+    }
+    vf_outcome(vf_hash64(&cnt, sizeof cnt, (uint64_t)kind));
+    memcpy(W.iface[0].mac, keep, 6);
+}
+static void va_name(int ev, char *b, size_t cap) { snprintf(b, cap, "arg(%d)", ev); }
+static void va_apply(int ev) { va_stage[va_n++] = ev; if (va_n == 3) { va_n = 0; va_case(va_stage[0], va_stage[1], va_stage[2]); } }
+static void va_root(void) { va_n = 0; memset(&M, 0, sizeof M); }
+static e1_cfg vacfg = { .nev = 1 << 16, .ev_name = va_name, .apply = va_apply, .root_setup = va_root };
+static void run_va(void) {
+    static int p[3];
+    for (int aset = 0; aset < 4; aset++) for (int kind = 0; kind < 4; kind++) for (int bit = 0; bit < (kind == 3 ? 1 : 48); bit++) { p[0] = aset; p[1] = kind; p[2] = bit; e1_manual_path(&vacfg, p, 3); va_case(aset, kind, bit); }
+    R.evaluations = va_cases * 4; R.transitions = va_cases * 4; R.states = 4; R.exhaustive = 1;
+    vf_sample("address-neighbour stage: 2 own x 2 source addresses x {one bit of real destination / real source / Ethernet source flipped (48 each), exact duplicate}");
+}
+
 /* ------------------------------------------------------------------ C19 pump
  * Directed long histories: every word of length <= L over a macro alphabet (Flood(n) = n fresh observations,
  * Query, bridged Query, quick Reset, icon request, duplicate, Emit) is repeated R times from several start
@@ -318,12 +371,13 @@ int main(int argc, char **argv) {
                    .deadline_s = A.deadline, .max_depth = mode == 19 ? 1400 : 0, .prune_on_violation = 1, .on_new_state = getenv("VF_DBG") ? dbg_state : NULL };
     if (!strcmp(A.mode, "c19multi")) cfg = (e1_cfg){ .nev = 5 * NIF, .ev_name = mm_name, .apply = mm_apply, .enabled = mm_enabled, .root_setup = mm_root, .model = &MM, .model_size = sizeof MM, .deadline_s = A.deadline, .prune_on_violation = 1 };
     pumpcfg = (e1_cfg){ .nev = 2000, .ev_name = pump_name, .apply = pump_apply, .root_setup = root_setup };
-    int vq = !strcmp(A.mode, "c07v");
-    if (A.replay) { A.verbose = 1; return e1_replay_file(vq ? &vqcfg : pump ? &pumpcfg : &cfg, A.replay); }
+    int vq = !strcmp(A.mode, "c07v"), va = !strcmp(A.mode, "c07a");
+    if (A.replay) { A.verbose = 1; return e1_replay_file(va ? &vacfg : vq ? &vqcfg : pump ? &pumpcfg : &cfg, A.replay); }
     double t0 = vf_now_s();
     e1_stats st;
     if (pump) { run_pump(&cfg); R.wall_s = vf_now_s() - t0; vf_write_results(); return 0; }
     if (vq) { run_vq(); R.wall_s = vf_now_s() - t0; vf_write_results(); return 0; }
+    if (va) { run_va(); R.wall_s = vf_now_s() - t0; vf_write_results(); return 0; }
     e1_run(&cfg, &st);
     if (mode == 19) {
         vf_extra("max_retained", "%llu bytes in %llu blocks over all %llu reachable states", (unsigned long long)max_live_bytes, (unsigned long long)max_live_blocks, (unsigned long long)st.states);
